@@ -106,6 +106,8 @@ def main():
         cmd = _re.split(r"\s+\(", cmd)[0].strip()  # drop trailing parenthetical remarks
         if "-count" not in cmd:
             cmd = cmd.replace("go test", "go test -count=1", 1)
+        cmd = cmd.split("|")[0].strip()  # drop output filters: the exit status must be go test's
+        cmd = _re.sub(r"\s+2>&1\s*$", "", cmd)
         rc_with, out_with, _ = run(cmd, wt, timeout=900)
         meta["demo_with_patch_fails"] = rc_with != 0 and ("FAIL" in out_with)
         meta["ran"].append(f"{cmd} with the patch: exit {rc_with}: {out_with.strip().splitlines()[-3:] if out_with.strip() else ''}")
